@@ -31,7 +31,28 @@ def log(*a):
     print(*a, flush=True)
 
 
-def sh(cmd, cwd=None, env=None, timeout=None, mem_gb=None, logfile=None):
+def _rss_watchdog(pgid, limit_kb, stop, killed):
+    """Kill any single process of the group whose resident set exceeds the limit (a runaway CBMC);
+    kani-driver then reports that harness as failed without output -> classified ERROR/inconclusive."""
+    while not stop.wait(3.0):
+        try:
+            out = subprocess.run(["ps", "-eo", "pid=,pgid=,rss=,comm="], capture_output=True, text=True).stdout
+        except Exception:
+            continue
+        for line in out.splitlines():
+            f = line.split(None, 3)
+            if len(f) < 4:
+                continue
+            pid, pg, rss = int(f[0]), int(f[1]), int(f[2])
+            if pg == pgid and rss > limit_kb:
+                try:
+                    os.kill(pid, signal.SIGKILL)
+                    killed.append((f[3], rss // 1024))
+                except ProcessLookupError:
+                    pass
+
+
+def sh(cmd, cwd=None, env=None, timeout=None, mem_gb=None, logfile=None, rss_limit_gb=None):
     """Run a command, return (rc, output, seconds, timed_out)."""
     t0 = time.time()
     e = dict(os.environ)
@@ -47,22 +68,38 @@ def sh(cmd, cwd=None, env=None, timeout=None, mem_gb=None, logfile=None):
             lim = int(mem_gb * (1 << 30))
             resource.setrlimit(resource.RLIMIT_AS, (lim, lim))
 
-    p = subprocess.Popen(cmd, cwd=cwd, env=e, stdout=subprocess.PIPE, stderr=subprocess.STDOUT,
-                         preexec_fn=pre, text=True, errors="replace")
+    import tempfile
+    if logfile:
+        sink = open(logfile, "w+", errors="replace")
+    else:
+        sink = tempfile.TemporaryFile("w+", errors="replace")
+    p = subprocess.Popen(cmd, cwd=cwd, env=e, stdout=sink, stderr=subprocess.STDOUT, preexec_fn=pre)
     timed_out = False
+    stop, killed, th = None, [], None
+    if rss_limit_gb:
+        import threading
+        stop = threading.Event()
+        th = threading.Thread(target=_rss_watchdog, args=(p.pid, int(rss_limit_gb * 1024 * 1024), stop, killed),
+                              daemon=True)
+        th.start()
     try:
-        out, _ = p.communicate(timeout=timeout)
+        p.wait(timeout=timeout)
     except subprocess.TimeoutExpired:
         timed_out = True
         try:
             os.killpg(p.pid, signal.SIGKILL)
         except ProcessLookupError:
             pass
-        out, _ = p.communicate()
+        p.wait()
+    if stop is not None:
+        stop.set()
+    for comm, mb in killed:
+        sink.write("\n[verif watchdog] killed %s at %d MB resident (limit %s GB): out of memory\n" % (comm, mb, rss_limit_gb))
+    sink.flush()
+    sink.seek(0)
+    out = sink.read()
+    sink.close()
     dt = time.time() - t0
-    if logfile:
-        with open(logfile, "w") as f:
-            f.write(out)
     return p.returncode, out, dt, timed_out
 
 
@@ -248,7 +285,7 @@ def _parse_chunk(r, chunk):
 
 def parse_kani_output(out, harnesses):
     """Split Kani output (regular or terse/-j) into per-harness results."""
-    res = {h: HarnessResult(h) for h in harnesses}
+    res = {h.split("::")[-1]: HarnessResult(h.split("::")[-1]) for h in harnesses}
 
     def find(full):
         return res.get(full.split("::")[-1]) or res.get(full)
@@ -280,8 +317,8 @@ def parse_kani_output(out, harnesses):
     return res
 
 
-def run_kani(stage, package, harnesses, unsafe_checks=False, timeout=900, mem_gb=14,
-             extra_flags=(), cfgs=(), logname="kani", jobs=1, playback=True):
+def run_kani(stage, package, harnesses, unsafe_checks=False, timeout=900, mem_gb=None,
+             extra_flags=(), cfgs=(), logname="kani", jobs=1, playback=True, rss_limit_gb=None):
     """Run the given harnesses of `package` in the staged workspace.  Returns (results, meta)."""
     cmd = ["cargo", "kani", "-p", package, "--target-dir", stage.target,
            "-Z", "stubbing", "-Z", "unstable-options"]
@@ -299,7 +336,10 @@ def run_kani(stage, package, harnesses, unsafe_checks=False, timeout=900, mem_gb
     if cfgs:
         env["RUSTFLAGS"] = " ".join("--cfg %s" % c for c in cfgs)
     logfile = os.path.join(stage.root, logname + ".log")
-    rc, out, dt, timed_out = sh(cmd, cwd=stage.ws, env=env, timeout=timeout, mem_gb=mem_gb, logfile=logfile)
+    if rss_limit_gb is None:
+        rss_limit_gb = float(os.environ.get("VERIF_RSS_GB", "0") or 0) or max(8.0, 44.0 / max(1, jobs))
+    rc, out, dt, timed_out = sh(cmd, cwd=stage.ws, env=env, timeout=timeout, mem_gb=mem_gb, logfile=logfile,
+                                rss_limit_gb=rss_limit_gb)
     res = parse_kani_output(out, harnesses)
     build_error = ("error: could not compile" in out) or ("error[E" in out and "Checking harness" not in out)
     for r in res.values():
